@@ -21,6 +21,11 @@ CHECKS = {
          "Value::parse is compared (accept/reject and denoted value, member order included) with an independent strict RFC 8259 recogniser on: every string of <=5 tokens over a 16-token JSON alphabet, every number-like string of <=7 symbols, the repo's JSONTestSuite files, forced nesting depths around the 256 limit, and grammar-generated documents with generated whitespace/escape/number spellings plus their single-edit mutants. serialize/serialize_pretty(0..8) of generated Values (all Unicode, full finite f64 range) must be accepted by the reference, denote the same value, and parse back equal. Exhaustive on the enumerated spaces, sampled beyond.",
          "Trusts the reference recogniser (cross-checked against serde_json on every case where they are expected to agree, and against JSONTestSuite y_/n_ expectations; disagreement = exit 2) and Rust's f64 parsing for number values.",
          "DESIGN.md §5 C13"),
+ "C02": ("exploration",
+         "proptest grammar-based generation of requests x enumerated/sampled read segmentations; oracle = generating spec (faithfulness), metamorphic equality across segmentations, round-trip through a strict reference request parser",
+         "Requests generated from the supported HTTP/1.x grammar (5 methods, query, 0..40 headers incl. repeated names/non-ASCII values, Cookie, X-Forwarded-For with/without spaces, Content-Length bodies to 64 KiB) are parsed by Request::from_stream over a scripted reader under whole / byte-wise / every single split (short messages) or 64 biased splits / random multi-split plans. The parse must equal the spec, be identical under every plan, and Vec<u8>::from(Request) must be accepted by an independent strict parser as the same request and re-parse equal. Sampled, with measured class histogram in the evidence.",
+         "Trusts the in-memory scripted reader as a model of read boundaries and the reference request parser in common/http.rs. Sync parser only so far (tokio twin pending).",
+         "DESIGN.md §5 C02"),
 }
 
 NOT_YET = "check not built yet (work in progress; see DESIGN.md §5 for the intended design)"
